@@ -78,6 +78,15 @@ func (e *Engine) sod(t TimeV) *Term {
 }
 
 func (e *Engine) timeOffset(st *State, t TimeV) *Term {
+	if t.UTC.IsTrue() {
+		return e.bv64(0)
+	}
+	if t.Off != nil {
+		return e.tc.Ite(t.UTC, e.bv64(0), t.Off)
+	}
+	if e.opt.Zone == 2 {
+		panic(unsupported("zone offset of a local time that was not built by a modelled constructor under zone view Z2"))
+	}
 	return e.tc.Ite(t.UTC, e.bv64(0), e.zone.offsetBV(st))
 }
 
@@ -204,6 +213,9 @@ func (e *Engine) timeFormat(st *State, t TimeV, layout string) StrV {
 			two(t.S)
 		case "MST":
 			name := "UTC"
+			if e.opt.Zone == 2 && !t.UTC.IsTrue() {
+				return StrV{Opaque: true, Note: "zone abbreviation under zone view Z2"}
+			}
 			if e.opt.Zone >= 1 {
 				if t.UTC.IsFalse() {
 					name = zoneName
@@ -259,6 +271,10 @@ func (e *Engine) timeParse(st *State, layout string, s StrV, loc int, pos token.
 	}
 	ok := c.True
 	digit := func(b *Term) (*Term, *Term) {
+		if b.Op == OpConcat && b.Args[0].IsConst() && b.Args[0].C == 3 && b.Args[1].Sort.W == 4 {
+			// '0' + nibble, written as concat(#x3, nibble)
+			return c.ZeroExt(b.Args[1], 4), c.BVUle(b.Args[1], c.BV(9, 4))
+		}
 		d := c.BVSub(b, c.BV('0', 8))
 		return d, c.BVUle(d, c.BV(9, 8))
 	}
@@ -324,7 +340,7 @@ func (e *Engine) timeParse(st *State, layout string, s StrV, loc int, pos token.
 			i += 3
 		}
 	}
-	_ = hasYear
+	t.Year0 = !hasYear
 	// day of month against the month's length (Go: "day out of range")
 	// ok is accumulated first so that the leap-year witnesses are only constrained on the ok side
 	var out []exit
@@ -420,6 +436,34 @@ func init() {
 	field("Minute", func(t TimeV) *Term { return t.Mi })
 	field("Second", func(t TimeV) *Term { return t.S })
 	field("Nanosecond", func(t TimeV) *Term { return t.Ns })
+	stubs["(time.Time).Date"] = stubTimeMethod(func(e *Engine, st *State, t TimeV, args []Value, pos token.Pos) Value {
+		e.needCivil(t, "Date")
+		return TupleV{t.Y, t.M, t.D}
+	})
+	stubs["(time.Time).Clock"] = stubTimeMethod(func(e *Engine, st *State, t TimeV, args []Value, pos token.Pos) Value {
+		e.needCivil(t, "Clock")
+		return TupleV{t.H, t.Mi, t.S}
+	})
+	stubs["(time.Time).ZoneBounds"] = stubTimeMethod(func(e *Engine, st *State, t TimeV, args []Value, pos token.Pos) Value {
+		e.needCivil(t, "ZoneBounds")
+		zero := e.zeroTime()
+		if t.UTC.IsTrue() || e.opt.Zone < 2 {
+			if !t.UTC.IsTrue() && !t.UTC.IsFalse() {
+				panic(unsupported("ZoneBounds of a time whose location is symbolic"))
+			}
+			// UTC and fixed-offset zones have no transitions
+			return TupleV{zero, zero}
+		}
+		if t.Bef == nil || !t.UTC.IsFalse() {
+			panic(unsupported("ZoneBounds of a local time not built by a modelled constructor"))
+		}
+		// zero values of the local flavour so that both sides merge
+		zl := zero
+		zl.Off, zl.Bef = e.bv64(0), e.tc.True
+		tt := e.transitionTime(st)
+		zl.UTC = e.tc.True
+		return TupleV{e.iteTime(t.Bef, zl, tt), e.iteTime(t.Bef, tt, zl)}
+	})
 	stubs["(time.Time).IsZero"] = stubTimeMethod(func(e *Engine, st *State, t TimeV, args []Value, pos token.Pos) Value {
 		return e.timeIsZero(st, t)
 	})
@@ -610,6 +654,174 @@ func (e *Engine) timeUnixMilli(st *State, t TimeV) Value {
 	panic(unsupported("Time.UnixMilli"))
 }
 
+// ---- zone view Z2: the process zone is a two-interval zone (offset o1 before instant T, o2 from T on).
+//
+// T is expressed relative to the harness's anchor day A (declared with verifZoneAt(y, m, d)):
+// T = unix(A 00:00:00 UTC) + tau, -50400 <= tau <= 136800 - a transition outside that window cannot
+// influence the resolution of a civil time on day A (|offset| <= 14 h), where the zone acts as a
+// fixed-offset zone (covered by o1 == o2 or by tau at the window's edge).  Civil times on other days
+// are placed relative to A exactly for A-1 .. A+2 and by calendar order beyond (which is exact too,
+// because T lies within the window).  time.Date / ParseInLocation resolve civil fields with Go's own
+// algorithm (time.go, func Date: lookup at the civil time as if UTC, re-lookup when the guess falls
+// outside the zone interval found).
+
+type zoneView struct {
+	Y, M, D      *Term // anchor day
+	O1, O2, Tau  *Term
+}
+
+func (e *Engine) prevDay(st *State, y, m, d *Term) (*Term, *Term, *Term) {
+	c := e.tc
+	one := e.bv64(1)
+	firstOfMonth := c.Eq(d, one)
+	jan := c.Eq(m, one)
+	pm := c.Ite(jan, e.bv64(12), c.BVSub(m, one))
+	py := c.Ite(jan, c.BVSub(y, one), y)
+	return c.Ite(firstOfMonth, py, y), c.Ite(firstOfMonth, pm, m), c.Ite(firstOfMonth, e.daysIn(st, pm, py), c.BVSub(d, one))
+}
+
+func (e *Engine) nextDay(st *State, y, m, d *Term) (*Term, *Term, *Term) {
+	c := e.tc
+	one := e.bv64(1)
+	last := c.Eq(d, e.daysIn(st, m, y))
+	dec := c.Eq(m, e.bv64(12))
+	nm := c.Ite(dec, one, c.BVAdd(m, one))
+	ny := c.Ite(dec, c.BVAdd(y, one), y)
+	return c.Ite(last, ny, y), c.Ite(last, nm, m), c.Ite(last, one, c.BVAdd(d, one))
+}
+
+// declareZoneAt: intrinsic verifZoneAt(y, m, d).
+func (e *Engine) declareZoneAt(st *State, y, m, d *Term) {
+	c := e.tc
+	e.opt.Zone = 2
+	zv := &zoneView{Y: y, M: m, D: d, O1: c.Var("tz.o1", SBV(64)), O2: c.Var("tz.o2", SBV(64)), Tau: c.Var("tz.tau", SBV(64))}
+	st.assume(e.inRange(zv.O1, -50400, 50400))
+	st.assume(e.inRange(zv.O2, -50400, 50400))
+	st.assume(e.inRange(zv.Tau, -50400, 136800))
+	// jumps shorter than 24 h (a zone that skips a whole calendar day is exempt from the property)
+	dlt := c.BVSub(zv.O2, zv.O1)
+	st.assume(e.inRange(dlt, -86399, 86399))
+	e.zv = zv
+	if e.zoneTable != nil {
+		// table mode: (o1, o2, tau, anchor day) is one of the transitions of the installed tzdata
+		var rows []*Term
+		for _, r := range e.zoneTable {
+			rows = append(rows, c.And(c.Eq(zv.O1, e.bv64(int64(r.O1))), c.Eq(zv.O2, e.bv64(int64(r.O2))), c.Eq(zv.Tau, e.bv64(r.Tau)),
+				c.Eq(y, e.bv64(int64(r.Y))), c.Eq(m, e.bv64(int64(r.M))), c.Eq(d, e.bv64(int64(r.D)))))
+		}
+		st.assume(c.Or(rows...))
+	}
+}
+
+// The zone arithmetic runs in 24-bit two's complement: every quantity is bounded by
+// 3 days + 14 h + 38 h < 2^19 seconds in absolute value (the ranges are assumptions of declareZoneAt).
+const zw = 24
+
+func (e *Engine) z24(v int64) *Term { return e.tc.BV(uint64(v)&(1<<zw-1), zw) }
+func (e *Engine) lo24(x *Term) *Term { return e.tc.Extract(x, zw-1, 0) }
+
+func (e *Engine) sod24(t TimeV) *Term {
+	c := e.tc
+	return c.BVAdd(c.BVAdd(c.BVMul(e.lo24(t.H), e.z24(3600)), c.BVMul(e.lo24(t.Mi), e.z24(60))), e.lo24(t.S))
+}
+
+// hmsWitness: h, m, s with 3600h + 60m + s == sod (0 <= sod < 86400), as 64-bit terms.
+func (e *Engine) hmsWitness(st *State, guard, sod *Term, tag string) (*Term, *Term, *Term) {
+	c := e.tc
+	hw := c.Fresh(tag+"h", SBV(8))
+	mw := c.Fresh(tag+"m", SBV(8))
+	sw := c.Fresh(tag+"s", SBV(8))
+	x := func(w *Term) *Term { return c.ZeroExt(w, zw-8) }
+	st.assume(c.Implies(guard, c.And(c.BVUle(hw, c.BV(23, 8)), c.BVUle(mw, c.BV(59, 8)), c.BVUle(sw, c.BV(59, 8)),
+		c.Eq(sod, c.BVAdd(c.BVAdd(c.BVMul(x(hw), e.z24(3600)), c.BVMul(x(mw), e.z24(60))), x(sw))))))
+	return c.ZeroExt(hw, 56), c.ZeroExt(mw, 56), c.ZeroExt(sw, 56)
+}
+
 func (e *Engine) resolveCivilZ2(st *State, t TimeV, pos token.Pos) []civilAlt {
-	panic(unsupported("zone view Z2"))
+	c := e.tc
+	zv := e.zv
+	if zv == nil {
+		panic(unsupported("zone view Z2 without an anchor day (verifZoneAt)"))
+	}
+	if t.Year0 {
+		// time.Parse("150405"...) style values live in year 0, centuries before any zone's first transition
+		t.Off = zv.O1
+		t.Bef = c.True
+		return []civilAlt{{st, t}}
+	}
+	o1, o2, tau := e.lo24(zv.O1), e.lo24(zv.O2), e.lo24(zv.Tau)
+	eq3 := func(y, m, d *Term) *Term { return c.And(c.Eq(t.Y, y), c.Eq(t.M, m), c.Eq(t.D, d)) }
+	py, pm, pd := e.prevDay(st, zv.Y, zv.M, zv.D)
+	ny, nm, nd := e.nextDay(st, zv.Y, zv.M, zv.D)
+	n2y, n2m, n2d := e.nextDay(st, ny, nm, nd)
+	less := c.Or(c.BVSlt(t.Y, zv.Y), c.And(c.Eq(t.Y, zv.Y), c.Or(c.BVSlt(t.M, zv.M), c.And(c.Eq(t.M, zv.M), c.BVSlt(t.D, zv.D)))))
+	const far = 3 * 86400
+	dayRel := c.Ite(eq3(zv.Y, zv.M, zv.D), e.z24(0),
+		c.Ite(eq3(py, pm, pd), e.z24(-86400),
+			c.Ite(eq3(ny, nm, nd), e.z24(86400),
+				c.Ite(eq3(n2y, n2m, n2d), e.z24(2*86400),
+					c.Ite(less, e.z24(-far), e.z24(far))))))
+	sod := e.sod24(t)
+	u := c.BVAdd(dayRel, sod)
+	before := c.BVSlt(u, tau)
+	off1 := c.Ite(before, o1, o2)
+	utc := c.BVSub(u, off1)
+	utcBefore := c.BVSlt(utc, tau)
+	// "if offset != 0 { if utc < start || utc >= end { re-lookup } }"
+	inside := c.Ite(before, utcBefore, c.Not(utcBefore))
+	off := c.Ite(c.Or(inside, c.Eq(off1, e.z24(0))), off1, c.Ite(utcBefore, o1, o2))
+	inst := c.BVSub(u, off)
+	bef := c.BVSlt(inst, tau)
+	offI := c.Ite(bef, o1, o2)
+	delta := c.BVSub(offI, off)
+	// the civil fields Go reports: (day, sod) + delta
+	sod2 := c.BVAdd(sod, delta)
+	under := c.BVSlt(sod2, e.z24(0))
+	over := c.BVSle(e.z24(86400), sod2)
+	sod3 := c.Ite(under, c.BVAdd(sod2, e.z24(86400)), c.Ite(over, c.BVSub(sod2, e.z24(86400)), sod2))
+	same := c.Eq(delta, e.z24(0))
+	out := t
+	if !same.IsTrue() {
+		hw, mw, sw := e.hmsWitness(st, c.Not(same), sod3, "z2")
+		ty, tm, td := e.prevDay(st, t.Y, t.M, t.D)
+		uy, um, ud := e.nextDay(st, t.Y, t.M, t.D)
+		out.H = c.Ite(same, t.H, hw)
+		out.Mi = c.Ite(same, t.Mi, mw)
+		out.S = c.Ite(same, t.S, sw)
+		out.Y = c.Ite(under, ty, c.Ite(over, uy, t.Y))
+		out.M = c.Ite(under, tm, c.Ite(over, um, t.M))
+		out.D = c.Ite(under, td, c.Ite(over, ud, t.D))
+	}
+	out.Off = c.Ite(bef, zv.O1, zv.O2)
+	out.Bef = bef
+	return []civilAlt{{st, out}}
+}
+
+// transitionTime: the zone's transition instant as a local time.Time (zone view Z2).
+func (e *Engine) transitionTime(st *State) TimeV {
+	c := e.tc
+	zv := e.zv
+	v := c.BVAdd(e.lo24(zv.Tau), e.lo24(zv.O2)) // seconds after 00:00 of the anchor day on the civil axis: -100800 .. 187200
+	lt := func(k int64) *Term { return c.BVSlt(v, e.z24(k)) }
+	dayOff := c.Ite(lt(-86400), e.z24(-2*86400), c.Ite(lt(0), e.z24(-86400), c.Ite(lt(86400), e.z24(0), c.Ite(lt(172800), e.z24(86400), e.z24(2*86400)))))
+	sod := c.BVSub(v, dayOff)
+	hw, mw, sw := e.hmsWitness(st, c.True, sod, "zt")
+	py, pm, pd := e.prevDay(st, zv.Y, zv.M, zv.D)
+	p2y, p2m, p2d := e.prevDay(st, py, pm, pd)
+	ny, nm, nd := e.nextDay(st, zv.Y, zv.M, zv.D)
+	n2y, n2m, n2d := e.nextDay(st, ny, nm, nd)
+	pick := func(a2, a1, a0, b1, b2 *Term) *Term {
+		return c.Ite(lt(-86400), a2, c.Ite(lt(0), a1, c.Ite(lt(86400), a0, c.Ite(lt(172800), b1, b2))))
+	}
+	return TimeV{Y: pick(p2y, py, zv.Y, ny, n2y), M: pick(p2m, pm, zv.M, nm, n2m), D: pick(p2d, pd, zv.D, nd, n2d),
+		H: hw, Mi: mw, S: sw, Ns: e.bv64(0), UTC: c.False, Off: zv.O2, Bef: c.False}
+}
+
+// mergeTimes: ite(g, a, b) on two time values.
+func (e *Engine) iteTime(g *Term, a, b TimeV) TimeV {
+	v, ok := e.mergeVal(g, a, b)
+	if !ok {
+		panic(unsupported("ite over time values of different kinds"))
+	}
+	return v.(TimeV)
 }
